@@ -184,7 +184,9 @@ theorem C01_end_context (w : World) (ns : Nat) (name : String) (w' : World)
 
 /-! ### the full statement (data-independence of the token skeleton) -/
 
-/-- C01 for one action: the same static prefix and suffix around two untrusted values -/
+/-- C01 for one action: the same static prefix and suffix around two untrusted values.
+    PROVED in Proofs/HtmlTokSim.lean (`C01_one_action`, and `C01_n_actions` for any number of actions) by a simulation
+    relation over all tokenizer states. -/
 def C01_one_action_statement : Prop :=
   ∀ pre post x y : Bytes, Esc x = true → Esc y = true → InertPos (run {} pre).st →
     skeleton (HtmlTok.tokenize (pre ++ x ++ post)).tokens = skeleton (HtmlTok.tokenize (pre ++ y ++ post)).tokens ∧
